@@ -42,7 +42,7 @@ def gen_cases(ctx):
         corpus = query.rand_corpus(rng)
         fseed = rng.getrandbits(48)
         if ctx.take(i):
-            yield {"corpus": corpus, "fseed": fseed, "nrand": 25, "subproc": i % 97 == 5}
+            yield {"corpus": corpus, "fseed": fseed, "nrand": 25, "subproc": i % 41 == 5}
 
 
 # --------------------------------------------------------------------------- spellings
@@ -420,7 +420,8 @@ def run_case(ctx, case):
             if case.get("subproc") and nsub < 3 and kind != "json1" or (case.get("subproc") and nsub == 0):
                 nsub += 1
                 env = dict(os.environ)
-                r = subprocess.run([sys.executable, "-m", "signac", "find"] + list(toks), cwd=project.path,
+                # '--' as on any command line: tokens such as -1 would otherwise be taken for options (-1 = --one-line)
+                r = subprocess.run([sys.executable, "-m", "signac", "find", "--"] + list(toks), cwd=project.path,
                                    capture_output=True, text=True, env=env, timeout=120)
                 ctx.count("cli_subprocess_runs")
                 got4 = set(r.stdout.split())
